@@ -88,6 +88,15 @@ func zzC05Keys(rr *zzRealRing, home int) []*zzC05Key {
 			}
 		}
 		keys[i] = k
+		if rt.Bound("ORDERED") > 0 {
+			// keys are created in ascending (hash, key) order: the order in which the real skipmaps iterate. The
+			// engine's container model iterates symbolic keys in insertion order, so with this assumption both agree
+			// and behaviour that depends on the iteration order (which the other obligations assume away) is explored
+			// faithfully and replays natively. The set of stores is the same; only the profile-by-index coupling is lost.
+			for j := 0; j < i; j++ {
+				rt.Assume(rt.Or(keys[j].hash < k.hash, rt.And(keys[j].hash == k.hash, zzLexLess(keys[j].key, k.key))))
+			}
+		}
 		if n > 1 {
 			if rt.Bound("SPREAD") > 0 {
 				k.owner = rt.Choose("owner", n)
